@@ -209,7 +209,14 @@ pub fn explain_why_not(relation: &str, target: &Tuple, ctx: &ProofContext<'_>) -
                     }
                     BodyPredicate::Negated(ref atom) => {
                         let bound = substitute_atom(atom, &current_bindings);
-                        let matches = find_matching_tuples(&atom.relation, &bound, ctx.base_data);
+                        let mut matches =
+                            find_matching_tuples(&atom.relation, &bound, ctx.base_data);
+                        if matches.is_empty() {
+                            // A derived fact blocks a negated atom just like a stored one
+                            if let Some(derived) = ctx.derived_data {
+                                matches = find_matching_tuples(&atom.relation, &bound, derived);
+                            }
+                        }
 
                         if !matches.is_empty() {
                             // Negation FAILED (tuple exists that shouldn't)
